@@ -1633,6 +1633,25 @@ def check_axis_size_inference(ctx, drv, rng, thorough):
 # ------------------------------------------------------------------------------------------------
 
 
+_SINCE_CLEAR = [0]
+_CLEAR_EVERY = [120]
+
+
+def _housekeeping(every=None):
+  """every configuration compiles its own XLA executables (scan bodies, eager ops per shape); in a long run they
+  accumulate until LLVM cannot map memory.  Drop the compiled-function caches and the generated module classes
+  every `every` configurations."""
+  every = every or _CLEAR_EVERY[0]
+  _SINCE_CLEAR[0] += 1
+  if _SINCE_CLEAR[0] >= every:
+    _SINCE_CLEAR[0] = 0
+    _MODULES.clear()
+    jax.clear_caches()
+    import gc
+
+    gc.collect()
+
+
 def run_cases(ctx, drv, cases):
   for c, st in cases:
     c['stream'] = st  # kept inside the case so that a replay judges it by the same rules
@@ -1663,6 +1682,7 @@ def run_cases(ctx, drv, cases):
     if o[0] == 'ok':
       ctx.count('verdict', o[1]['verdict'])
     check_case(ctx, o, case, stream)
+    _housekeeping()
 
 
 def _has_bc(e):
@@ -1724,6 +1744,7 @@ def _role_stats(ctx, case):
 def run(ctx):
   drv = LeanDriver('drv_c06')
   thorough = ctx.tier == 'thorough'
+  _CLEAR_EVERY[0] = 120 if thorough else 400  # the quick tier (≈160 configurations) never needs it
   rng = ctx.rng
   for fn, obj in load_corpus('C06'):
     ctx.corpus_replayed += 1
@@ -1732,7 +1753,7 @@ def run(ctx):
   check_move_axis(ctx, drv, thorough)
   check_length_inference(ctx, drv, rng, thorough)
   check_axis_size_inference(ctx, drv, rng, thorough)
-  n_scan, n_vmap, n_remat, n_wild = (70, 35, 16, 35) if not thorough else (2400, 1200, 400, 1200)
+  n_scan, n_vmap, n_remat, n_wild = (70, 35, 16, 35) if not thorough else (1200, 600, 200, 600)
   cases = []
   for _ in range(n_scan):
     cases.append((gen_scan_case(rng, 'valid', kind='scan'), 'valid'))
